@@ -10,7 +10,13 @@ Fixpoint nodup_keysb (l : list Z) : bool :=
   match l with [] => true | x :: r => negb (existsb (Z.eqb x) r) && nodup_keysb r end.
 Definition adj_closedb (g : graph) : bool :=
   forallb (fun n => forallb (fun wa => has_node g (fst wa)) (nadj n)) g.
-Definition wf_graphb (g : graph) : bool := nodup_keysb (node_keys g) && adj_closedb g.
+Definition adj_nodupb (g : graph) : bool := forallb (fun n => nodup_keysb (map fst (nadj n))) g.
+(** undirected: the reverse adjacency entry exists and agrees on "order is 2" *)
+Definition adj_symb (g : graph) : bool :=
+  forallb (fun n => forallb (fun wa =>
+     has_edge g (fst wa) (nk n)
+     && Bool.eqb (is_two (edge_get g (fst wa) (nk n) (S "order"))) (is_two (aget (S "order") (snd wa)))) (nadj n)) g.
+Definition wf_graphb (g : graph) : bool := nodup_keysb (node_keys g) && adj_closedb g && adj_nodupb g && adj_symb g.
 
 (** clause (a): l1 - a1 = a2 - l2 is a path of g, the middle edge has order 2, all four keys are
     nodes, the ligands are not anchors *)
@@ -77,3 +83,24 @@ Definition inj_on (l : list Z) (f : Z -> Z) : Prop := forall x y, In x l -> In y
 (** monotone on every (neighbour, node) pair: the only comparisons the annotation makes *)
 Definition mono_adj (g : graph) (f : Z -> Z) : Prop :=
   forall n w d, In n g -> In (w, d) (nadj n) -> (w <? nk n) = (f w <? f (nk n)) /\ (nk n <? w) = (f (nk n) <? f w).
+
+(** ---- "the same molecule with the same marks", numbered differently (two variants) *)
+Definition same_marked_moleculeb (iso : Z -> Z) (g1 g2 : graph) : bool :=
+  Nat.eqb (length g1) (length g2)
+  && nodup_keysb (map iso (node_keys g1))
+  && forallb (fun n =>
+       let k := nk n in
+       has_node g2 (iso k)
+       && match node_get g2 (iso k) (S "element"), aget (S "element") (na n) with
+          | Some x, Some y => pyval_eqb x y | _, _ => false end
+       && match node_get g2 (iso k) (S "ez_isomer_class"), aget (S "ez_isomer_class") (na n) with
+          | Some x, Some y => pyval_eqb x y | None, None => true | _, _ => false end
+       && Nat.eqb (degree g2 (iso k)) (length (nadj n))
+       && forallb (fun wa => match edge_get g2 (iso k) (iso (fst wa)) (S "order"), aget (S "order") (snd wa) with
+                             | Some x, Some y => pyval_eqb x y | _, _ => false end) (nadj n)
+       (* fragment membership is kept: same fragment in g1 <-> same fragment in g2 *)
+       && forallb (fun m => Bool.eqb
+             (match aget (S "fragid") (na n), aget (S "fragid") (na m) with
+              | Some x, Some y => pyval_eqb x y | _, _ => false end)
+             (match node_get g2 (iso k) (S "fragid"), node_get g2 (iso (nk m)) (S "fragid") with
+              | Some x, Some y => pyval_eqb x y | _, _ => false end)) g1) g1.
